@@ -905,6 +905,7 @@ def cat(tensors, dim=0):
         InvalidArguments: Not implemented for tensor matrices.
         InvalidArguments: The mode sizes must be the same on the nonconcatenated dimensions for all the provided tensors.
         InvalidArguments: The tensors must have the same number of dimensions.
+        InvalidArguments: The concatenation dimension must be an integer from 0 to d-1.
 
     Returns:
         torchtt.TT: the result.
@@ -915,6 +916,8 @@ def cat(tensors, dim=0):
 
     if tensors[0].is_ttm:
         raise InvalidArguments("Not implemented for tensor matrices.")
+    if not (0 <= dim < len(tensors[0].N)):
+        raise InvalidArguments("The concatenation dimension must be an integer from 0 to d-1.")
     Rs = [tensors[0].R]
 
     for i in range(1, len(tensors)):
